@@ -64,6 +64,7 @@ class Driver:
         self.tree = {}  # relpath tuple (of str names) -> "dir" | "file"   (R itself is not an entry)
         self.otree = {}
         self.nprobe = 0
+        self.moved_out = {}  # outside path of a directory that was moved out -> its old path inside the tree
         self.names = {}  # logical name -> bytes on disk (C19: odd spellings)
 
     def b(self, name):
@@ -127,7 +128,14 @@ class Driver:
             n = len(rel)
             return [{"r": list(p[n:]), "k": kk} for p, kk in sorted(tree.items()) if p[:n] == rel and len(p) > n]
 
-        d = {"k": k, "p": [], "q": [], "kind": "none", "sub": [], "made": [], "victim": "none"}
+        d = {"k": k, "p": [], "q": [], "kind": "none", "sub": [], "made": [], "victim": "none", "alias": []}
+        if k in ("owrite", "ocreat", "omkdir", "ounlink", "ormdir"):
+            rel = tuple(seq(op[1]))
+            d["kind"] = "dir" if k in ("omkdir", "ormdir") else "file"
+            for pre, old in self.moved_out.items():
+                if rel[: len(pre)] == pre and len(rel) > len(pre):
+                    d["alias"] = list(old + rel[len(pre):])
+            return d
         if k in ("mkdir", "creat", "write", "chmod", "unlink", "rmdir", "read"):
             rel = tuple(seq(op[1]))
             d["p"] = list(rel)
@@ -234,6 +242,8 @@ class Driver:
         elif k == "moveout":
             src, dst = tuple(op[1].split("/")), tuple(op[2].split("/"))
             self.y()
+            if T.get(src) == "dir":
+                self.moved_out[dst] = src
             os.rename(self.rp(src), self.op_(dst))
             self._move(T, src, self.otree, dst)
         elif k == "movein":
@@ -244,8 +254,9 @@ class Driver:
         elif k == "owrite":  # operate on an entry that has left the tree (C07)
             rel = tuple(op[1].split("/"))
             self.y()
-            with open(self.op_(rel), "a") as f:
-                f.write("x")
+            fd = os.open(self.op_(rel), os.O_WRONLY | os.O_APPEND)
+            os.write(fd, b"x")
+            os.close(fd)
         elif k == "omkdir":
             rel = tuple(op[1].split("/"))
             self.y()
@@ -256,6 +267,16 @@ class Driver:
             self.y()
             open(self.op_(rel), "w").close()
             self.otree[rel] = "file"
+        elif k == "ounlink":
+            rel = tuple(op[1].split("/"))
+            self.y()
+            os.unlink(self.op_(rel))
+            self.otree.pop(rel, None)
+        elif k == "ormdir":
+            rel = tuple(op[1].split("/"))
+            self.y()
+            os.rmdir(self.op_(rel))
+            self.otree.pop(rel, None)
         elif k == "ormtree":
             rel = tuple(op[1].split("/"))
             self.y()
